@@ -479,6 +479,8 @@ class Ctx:
         if self.mode == "concrete":
             c = cb(cond)
             self.concrete_report.append(("assume:" + str(name), c.viol, None))
+            if c.viol > 1e-9:
+                raise PathEnd("precondition %s not met by this sample" % name)     # the sample is outside the contract's domain
             return
         if isinstance(cond, (bool, np.bool_)):
             if not cond:
